@@ -53,11 +53,11 @@ LEVEL_NOTE = ('Trusted: NumPy, Hypothesis, evaluation of the operators '
 DESIGN_REF = 'DESIGN.md section 5, C06'
 BUDGET = {'quick': 3000, 'thorough': 40000}
 TOLERANCES = {
-    'fd': 'min_k |q(h_k) - D(d)|_max <= 2048*eps^(2/3)*S, S = max(|D(d)|, '
+    'fd': 'min_k |q(h_k) - D(d)|_max <= 256*eps^(2/3)*S, S = max(|D(d)|, '
           '|q|, |op(x)|)_max; h_k = h0*r^-k, k = 0..5 (float64: h0=2^-3, '
           'r=8; float32: h0=2^-2, r=4), base point and direction normalised '
-          'to max-norm <= 2 resp. 1; 2048*eps^(2/3) = 7.6e-8 (float64), '
-          '5e-2 (float32)',
+          'to max-norm <= 2 resp. 1; 256*eps^(2/3) = 9.5e-9 (float64), '
+          '6.2e-3 (float32); observed on the unchanged tree: <= 19*eps^(2/3)*S',
     'order': 'best slope log(e_j/e_min)/log(h_j/h_min) over j before the '
              'minimum >= 1.5, unless e_0 <= 1e4*eps*S (difference quotient '
              'exact: affine / quadratic maps)',
@@ -88,11 +88,18 @@ RULE = ('Hypothesis draws (type table, zoo entry with options | expression '
         'shift) and the difference ladder was evaluated; distinct by sha1 of '
         'the descriptor')
 EXHAUSTIVE = {
-    'quick': ['all 72 odl.ufunc_ops on rn(3) / cn(2) / integer space: the '
+    'quick': ['zoo grid: every operator class with a derivative x every '
+              'option combination of zoo_options() x 11 space templates '
+              '(real/complex, float64/32, const- and array-weighted, 1-D and '
+              '2-D discretized, weighted power spaces), one base point each',
+              'all 72 odl.ufunc_ops on rn(3) / cn(2) / integer space: the '
               'ten with closed-form derivative are offered, the five flagged '
               'linear return themselves, every other one raises '
               'OpNotImplementedError'],
-    'thorough': ['all 72 odl.ufunc_ops on rn(3) / cn(2) / integer space: the '
+    'thorough': ['zoo grid: every operator class with a derivative x every '
+                 'option combination of zoo_options() x 11 space templates, '
+                 'four base points each',
+                 'all 72 odl.ufunc_ops on rn(3) / cn(2) / integer space: the '
                  'ten with closed-form derivative are offered, the five '
                  'flagged linear return themselves, every other one raises '
                  'OpNotImplementedError'],
@@ -163,149 +170,237 @@ ROOTS = [('X', 'X')] * 6 + [('X', 'Y'), ('Y', 'X'), ('X', 'F'), ('X', 'F'),
                              ('Xr', 'X'), ('X', 'R'), ('Xr', 'R')]
 
 
-@st.composite
-def _zoo(draw, types):
-    """(leaf node, constraint on the base point) of one zoo entry."""
+# The zoo is table driven: ``zoo_options(types)`` lists every (entry,
+# option combination) that exists for a type table as a leaf node whose data
+# arguments are *placeholders* ``{'$': kind, ...}``; `materialise` replaces
+# them with data drawn by Hypothesis (generated part) or by a seeded RNG
+# (exhaustive part: every entry x option x space template).
+
+def _leaf(k, dom, ran, **args):
+    return {'op': 'leaf', 'kind': k, 'dom': dom, 'ran': ran, 'args': args,
+            'fk': 'op'}
+
+
+def _V(key):
+    return {'$': 'values', 'key': key}
+
+
+def zoo_options(types):
+    """List of (entry name, leaf node with placeholders, point constraint)."""
     X = ex.tinfo(types, 'X')
     cplx = X.cplx
-    entries = ['ufunc'] * 6 + ['power'] * 3 + ['fpower', 'cmod', 'cmodsq',
-                                               'norm', 'dist', 'inner',
-                                               'constant', 'ufunc_lin',
-                                               'realpart', 'imagpart',
-                                               'pwnorm', 'pwnorm', 'pwnorm',
-                                               'pwinner', 'pwsum',
-                                               'pnorm', 'pdist', 'l1grad']
-    if not cplx:
-        entries += ['ufunc_lin2', 'lincomb', 'fcompgrad']
-        # (float32: known finding C06-K5, excluded by construction)
-        if X.cat == 'leaf' and len(X.shape) == 1 and X.shape[0] >= 2 and \
-                types['X']['kind'] == 'tensor' and X.dtype == 'float64':
-            entries += ['rosenbrock_grad'] * 2
-    else:
-        entries += ['cembed', 'cembed_r']
+    Xr = 'Xr' if cplx else 'X'
+    RR = 'R' if cplx else 'F'
+    out = []
+
+    def add(name, node, cons=None):
+        out.append((name, node, cons))
+
+    for name in UFUNCS_DERIV:
+        add('ufunc', _leaf('ufunc', 'X', 'X', name=name),
+            'pos' if name in POS_UFUNCS else ('small' if name == 'tan'
+                                              else None))
+    for pw in ([2, 3, 1, -1, 0, -2] if cplx else
+               [2, 3, 1, 0.5, -1, 2.5, 0, -2, 1.5]):
+        add('power', _leaf('power', 'X', 'X', p=pw),
+            None if (pw == int(pw) and pw >= 0) else 'pos')
+    for pw in ([2, 3, 1, -1] if cplx else [2, 3, 1, 0.5, -1, 2.5]):
+        add('fpower', _leaf('fpower', 'F', 'F', p=pw),
+            None if (pw == int(pw) and pw >= 0) else 'pos')
+    for k in ('cmod', 'cmodsq', 'realpart', 'imagpart'):
+        add(k, _leaf(k, 'X', Xr), 'nonzero' if k == 'cmod' else None)
+    for dom in ('X', 'P', 'Pw', 'XX'):
+        add('norm', _leaf('norm', dom, RR))
+        add('dist', _leaf('dist', dom, RR, v=_V(dom)))
+    for dom in ('X', 'P', 'XX'):
+        for how in ('ctor', 'T'):
+            add('inner', _leaf('inner', dom, 'F', v=_V(dom), how=how))
+    for dom, ran in (('X', 'X'), ('X', 'Y'), ('P', 'X')):
+        for zero in (False, True):
+            add('constant', _leaf('constant', dom, ran, v=_V(ran),
+                                  zero=zero))
+    for name in (['negative'] if cplx else UFUNCS_LIN1):
+        add('ufunc_lin', _leaf('ufunc_lin', 'X', 'X', name=name))
+    for k in ('identity', 'zero'):
+        add(k, _leaf(k, 'X', 'X'))
+    add('scaling', _leaf('scaling', 'X', 'X', s={'$': 'scalar',
+                                                'cplx': cplx}))
+    add('multiply', _leaf('multiply', 'X', 'X', v=_V('X')))
+    if len(X.shape) >= 1:
+        add('matrix', _leaf('matrix', 'X', 'X', m={
+            '$': 'matrix', 'shape': [X.shape[0], X.shape[0]],
+            'dtype': X.dtype}))
+    n = int(types['XX']['n'])
+    if n == 2 and types['XX'].get('default'):
+        add('ufunc_lin2', _leaf('ufunc_add', 'XX', 'X'))
+        add('ufunc_lin2', _leaf('ufunc_subtract', 'XX', 'X'))
+        for a, c in ((1.0, 1.0), (2.0, -0.5), (0.0, 1.0)):
+            add('lincomb', _leaf('lincomb', 'XX', 'X',
+                                 a={'v': a, 'np': None},
+                                 b={'v': c, 'np': None}))
+    wlist = [[1.0, 2.0, 0.5][:n], [3.0, 1.0, 1.5][:n]]
+    for pw in (None, 1.0, 1.5, 2.0, 2.5, 3.0, float('inf')):
+        for w in (None, 2.0, wlist[0], wlist[1]):
+            add('pwnorm', _leaf('pwnorm', 'XX', 'X', exponent=pw,
+                                weighting=w), 'nonzero')
+    for w in (None, 2.0, wlist[0]):
+        add('pwinner', _leaf('pwinner', 'XX', 'X', v=_V('XX'), weighting=w))
+        add('pwsum', _leaf('pwsum', 'XX', 'X', weighting=w))
+    add('l1grad', _leaf('l1grad', Xr, Xr), 'nonzero')
+    if not cplx and len(X.shape) == 1:
+        add('fcompgrad', _leaf('fcompgrad', 'X', 'X', mid='Y', m={
+            '$': 'matrix', 'shape': [types['Y']['shape'][0], X.shape[0]],
+            'dtype': X.dtype}))
+    # (float32: known finding C06-K5, excluded by construction)
+    if not cplx and len(X.shape) == 1 and X.shape[0] >= 2 and \
+            types['X']['kind'] == 'tensor' and X.dtype == 'float64':
+        for sc in (100.0, 1.0, 2.5):
+            add('rosenbrock_grad', _leaf('rosenbrock_grad', 'X', 'X',
+                                         scale=sc))
+    if cplx:
+        for sv in (1.0, 1j, 2 - 0.5j):
+            add('cembed', _leaf('cembed', 'X', 'X',
+                                s={'v': sv, 'np': None}))
+            add('cembed_r', _leaf('cembed', 'Xr', 'X',
+                                  s={'v': sv, 'np': None}))
     if X.discr:
+        consts = (0.0, 1.5, -0.5)
         if max(X.shape) >= 3:
-            entries += ['partial'] * 2
+            for axis in [i for i, m in enumerate(X.shape) if m >= 3]:
+                for method in ex.DIFF_METHODS:
+                    for pc in consts:
+                        add('partial', _leaf('partial', 'X', 'X', axis=axis,
+                                             method=method,
+                                             pad_mode='constant',
+                                             pad_const=pc))
+                    for pm in ('symmetric', 'periodic', 'order1'):
+                        add('partial', _leaf('partial', 'X', 'X', axis=axis,
+                                             method=method, pad_mode=pm,
+                                             pad_const=0.0))
         if min(X.shape) >= 3:
-            entries += ['laplacian'] * 3
+            for pc in consts:
+                add('laplacian', _leaf('laplacian', 'X', 'X',
+                                       pad_mode='constant', pad_const=pc))
+            for pm in ('symmetric', 'periodic', 'order0'):
+                add('laplacian', _leaf('laplacian', 'X', 'X', pad_mode=pm,
+                                       pad_const=0.0))
             if 'G' in types:
-                entries += ['gradient', 'divergence'] * 2
-        entries += ['resize'] * 2
-    kind = draw(st.sampled_from(entries))
-    cons = None
+                for method in ex.DIFF_METHODS:
+                    for pc in consts:
+                        add('gradient', _leaf('gradient', 'X', 'G',
+                                              method=method,
+                                              pad_mode='constant',
+                                              pad_const=pc))
+                        add('divergence', _leaf('divergence', 'G', 'X',
+                                                method=method,
+                                                pad_mode='constant',
+                                                pad_const=pc))
+        for delta, off in ((2, 1), (1, 0), (-1, 0), (3, 2), (0, 0)):
+            for pc in (0.0, 1.5):
+                shape = [max(1, m + delta) for m in X.shape]
+                add('resize', _leaf('resize', 'X', 'Z', shape=shape,
+                                    offset=[off] * len(X.shape),
+                                    pad_mode='constant', pad_const=pc))
+    return out
 
-    def leaf(k, dom, ran, **args):
-        return {'op': 'leaf', 'kind': k, 'dom': dom, 'ran': ran,
-                'args': args, 'fk': 'op'}
 
-    if kind == 'ufunc':
-        name = draw(st.sampled_from(UFUNCS_DERIV))
-        cons = 'pos' if name in POS_UFUNCS else (
-            'small' if name == 'tan' else None)
-        return leaf('ufunc', 'X', 'X', name=name), cons
-    if kind == 'power':
-        p = draw(st.sampled_from([2, 3, 1, 0.5, -1, 2.5, 0, -2, 1.5]))
-        if cplx:
-            p = draw(st.sampled_from([2, 3, 1, -1, 0, -2]))
-        cons = None if (p == int(p) and p >= 0) else 'pos'
-        return leaf('power', 'X', 'X', p=p), cons
-    if kind == 'fpower':
-        p = draw(st.sampled_from([2, 3, 1, 0.5, -1, 2.5]))
-        if cplx:
-            p = draw(st.sampled_from([2, 3, 1, -1]))
-        cons = None if (p == int(p) and p >= 0) else 'pos'
-        return leaf('fpower', 'F', 'F', p=p), cons
-    if kind in ('cmod', 'cmodsq', 'realpart', 'imagpart'):
-        return leaf(kind, 'X', 'Xr' if cplx else 'X'), (
-            'nonzero' if kind == 'cmod' else None)
-    if kind in ('norm', 'dist', 'pnorm', 'pdist'):
-        dom = draw(st.sampled_from(['P', 'Pw', 'XX'])) if kind[0] == 'p' \
-            else 'X'
-        k = kind.lstrip('p') if kind[0] == 'p' else kind
-        ran = 'R' if cplx else 'F'
-        args = {}
-        if k == 'dist':
-            args['v'] = draw(ex.values(types, dom))
-        return leaf(k, dom, ran, **args), None
-    if kind == 'inner':
-        dom = draw(st.sampled_from(['X', 'P', 'XX']))
-        return leaf('inner', dom, 'F', v=draw(ex.values(types, dom)),
-                    how=draw(st.sampled_from(['ctor', 'T']))), None
-    if kind == 'constant':
-        dom, ran = draw(st.sampled_from([('X', 'X'), ('X', 'Y'),
-                                         ('P', 'X')]))
-        return leaf('constant', dom, ran, v=draw(ex.values(types, ran)),
-                    zero=draw(st.sampled_from([False, False, True]))), None
-    if kind == 'ufunc_lin':
-        names = ['negative'] if cplx else UFUNCS_LIN1
-        return leaf('ufunc_lin', 'X', 'X',
-                    name=draw(st.sampled_from(names))), None
-    if kind == 'ufunc_lin2':
-        if not (types['XX']['n'] == 2 and types['XX'].get('default')):
-            return leaf('ufunc_lin', 'X', 'X', name='negative'), None
-        return leaf(draw(st.sampled_from(['ufunc_add', 'ufunc_subtract'])),
-                    'XX', 'X'), None
-    if kind == 'lincomb':
-        if not (types['XX']['n'] == 2 and types['XX'].get('default')):
-            return leaf('identity', 'X', 'X'), None
-        return leaf('lincomb', 'XX', 'X', a=draw(ex.scalars(False)),
-                    b=draw(ex.scalars(False))), None
-    if kind == 'pwnorm':
-        n = int(types['XX']['n'])
-        p = draw(st.sampled_from([None, 2.0, 1.0, 1.5, 3.0, 2.5, 1.0,
-                                  float('inf')]))
-        w = draw(st.sampled_from([None, None, 2.0, [1.0, 2.0, 0.5][:n],
-                                  [3.0, 1.0, 1.5][:n]]))
-        return leaf('pwnorm', 'XX', 'X', exponent=p, weighting=w), 'nonzero'
-    if kind in ('pwinner', 'pwsum'):
-        n = int(types['XX']['n'])
-        w = draw(st.sampled_from([None, None, 2.0, [1.0, 2.0, 0.5][:n]]))
-        args = {'weighting': w}
-        if kind == 'pwinner':
-            args['v'] = draw(ex.values(types, 'XX'))
-        return leaf(kind, 'XX', 'X', **args), None
-    if kind == 'l1grad':
-        return leaf('l1grad', 'Xr' if cplx else 'X',
-                    'Xr' if cplx else 'X'), 'nonzero'
-    if kind == 'fcompgrad':
-        if len(X.shape) != 1:
-            return leaf('identity', 'X', 'X'), None
-        m = draw(ex.array_descs((types['Y']['shape'][0], X.shape[0]),
-                                X.dtype, -1.5, 1.5))
-        return leaf('fcompgrad', 'X', 'X', m=m, mid='Y'), None
-    if kind == 'rosenbrock_grad':
-        return leaf('rosenbrock_grad', 'X', 'X',
-                    scale=draw(st.sampled_from([100.0, 1.0, 2.5]))), None
-    if kind == 'cembed':
-        return leaf('cembed', 'X', 'X', s=draw(ex.scalars(True,
-                                                          nonzero=True))), None
-    if kind == 'cembed_r':
-        return leaf('cembed', 'Xr', 'X',
-                    s=draw(ex.scalars(True, nonzero=True))), None
-    pad_const = draw(st.sampled_from([0.0, 1.0, -0.5, 2.0, 1.5]))
-    if kind == 'partial':
-        return leaf('partial', 'X', 'X',
-                    axis=draw(st.sampled_from(
-                        [i for i, n in enumerate(X.shape) if n >= 3])),
-                    method=draw(st.sampled_from(ex.DIFF_METHODS)),
-                    pad_mode='constant', pad_const=pad_const), None
-    if kind == 'laplacian':
-        return leaf('laplacian', 'X', 'X', pad_mode='constant',
-                    pad_const=pad_const), None
-    if kind in ('gradient', 'divergence'):
-        dom, ran = ('X', 'G') if kind == 'gradient' else ('G', 'X')
-        return leaf(kind, dom, ran,
-                    method=draw(st.sampled_from(ex.DIFF_METHODS)),
-                    pad_mode='constant', pad_const=pad_const), None
-    if kind == 'resize':
-        shape = [max(1, n + draw(st.sampled_from([2, 1, -1, 3, 0])))
-                 for n in X.shape]
-        offset = [draw(st.sampled_from([0, 1, 2])) for _ in X.shape]
-        types['Z'] = {'kind': 'resize_of', 'of': 'X', 'shape': shape,
-                      'offset': offset, 'fkey': 'F'}
-        return leaf('resize', 'X', 'Z', shape=shape, offset=offset,
-                    pad_mode='constant', pad_const=pad_const), None
-    raise HarnessError('zoo entry ' + kind)
+def _zoo_types(types, node):
+    """Type table for a zoo node (adds the range type of a resize)."""
+    if node['kind'] == 'resize':
+        types = dict(types)
+        types['Z'] = {'kind': 'resize_of', 'of': 'X',
+                      'shape': node['args']['shape'],
+                      'offset': node['args']['offset'], 'fkey': 'F'}
+    return types
+
+
+class HypGen(object):
+    def __init__(self, draw, types):
+        self.draw, self.types = draw, types
+
+    def values(self, key, lo=-2.0, hi=2.0, positive=False):
+        return self.draw(ex.values(self.types, key, lo, hi, positive))
+
+    def matrix(self, shape, dtype):
+        return self.draw(ex.array_descs(shape, dtype, -1.5, 1.5))
+
+    def scalar(self, cplx):
+        return self.draw(ex.scalars(cplx))
+
+    def signs(self):
+        return self.draw(st.lists(st.sampled_from([1.0, -1.0]), min_size=1,
+                                  max_size=8))
+
+    def choice(self, seq):
+        return self.draw(st.sampled_from(list(seq)))
+
+
+class RngGen(object):
+    """Explicit data from a seeded RNG (exhaustive part)."""
+
+    def __init__(self, rng, types):
+        self.rng, self.types = rng, types
+
+    def _entry(self, lo, hi, positive, cplx):
+        def one(pos):
+            if pos:
+                return float(np.round(self.rng.uniform(max(lo, 0.3), hi), 3))
+            if self.rng.randint(4) == 0:
+                pal = [p for p in ex.PALETTE if lo <= p <= hi]
+                return float(pal[self.rng.randint(len(pal))])
+            return float(np.round(self.rng.uniform(lo, hi), 3))
+        v = one(positive)
+        return complex(v, one(False)) if cplx else v
+
+    def _array(self, shape, dtype, lo, hi, positive):
+        dt = np.dtype(dtype)
+        size = int(np.prod(shape, dtype=int))
+        vals = np.empty(size, dtype=object)
+        for i in range(size):
+            vals[i] = self._entry(lo, hi, positive, dt.kind == 'c')
+        return {'dtype': str(dt), 'shape': list(shape), 'order': 'C',
+                'data': vals.reshape(shape).tolist()}
+
+    def values(self, key, lo=-2.0, hi=2.0, positive=False):
+        ti = ex.tinfo(self.types, key)
+        if ti.cat == 'field':
+            return self._entry(lo, hi, positive, ti.cplx)
+        if ti.cat == 'prod':
+            return [self.values(p, lo, hi, positive) for p in ti.parts]
+        return self._array(ti.shape, ti.dtype, lo, hi, positive)
+
+    def matrix(self, shape, dtype):
+        return self._array(shape, dtype, -1.5, 1.5, False)
+
+    def scalar(self, cplx):
+        v = [2.0, -0.5, 3.0, 1.0, -1.0, 0.25][self.rng.randint(6)]
+        if cplx and self.rng.randint(2):
+            v = complex(v, [1.0, -0.5][self.rng.randint(2)])
+        return {'v': v, 'np': None, 'cls': 'generic'}
+
+    def signs(self):
+        return [float(s) for s in self.rng.randint(0, 2, size=8) * 2 - 1]
+
+    def choice(self, seq):
+        seq = list(seq)
+        return seq[self.rng.randint(len(seq))]
+
+
+def materialise(obj, gen):
+    """Replace data placeholders by generated data."""
+    if isinstance(obj, dict):
+        if '$' in obj:
+            if obj['$'] == 'values':
+                return gen.values(obj['key'])
+            if obj['$'] == 'matrix':
+                return gen.matrix(obj['shape'], obj['dtype'])
+            if obj['$'] == 'scalar':
+                return gen.scalar(obj['cplx'])
+            raise HarnessError('placeholder {!r}'.format(obj))
+        return {k: materialise(v, gen) for k, v in obj.items()}
+    if isinstance(obj, list):
+        return [materialise(v, gen) for v in obj]
+    return obj
 
 
 def _flip(ed, signs, pos=None):
@@ -329,53 +424,106 @@ def _flip(ed, signs, pos=None):
     return f(ed)
 
 
-@st.composite
-def _nonzero_points(draw, types, key):
-    ed = draw(ex.values(types, key, lo=0.3, hi=2.0, positive=True))
-    signs = draw(st.lists(st.sampled_from([1.0, -1.0]), min_size=1,
-                          max_size=8))
-    return _flip(ed, signs)
-
-
-def _point_strategy(types, key, cons):
+def _point(gen, key, cons):
     if cons == 'nonzero':
-        return _nonzero_points(types, key)
+        return _flip(gen.values(key, 0.3, 2.0, True), gen.signs())
     if cons == 'pos':
-        return ex.values(types, key, lo=0.3, hi=2.0, positive=True)
+        return gen.values(key, 0.3, 2.0, True)
     if cons == 'small':
-        return ex.values(types, key, lo=-1.1, hi=1.1)
-    return ex.values(types, key)
+        return gen.values(key, -1.1, 1.1)
+    return gen.values(key)
+
+
+def _case(gen, types, tree, what, cons):
+    dom = tree['dom']
+    return {'types': types, 'tree': tree, 'what': what,
+            'x': _point(gen, dom, cons),
+            'dirs': [gen.values(dom, -1.0, 1.0)
+                     for _ in range(gen.choice([1, 2, 2]))],
+            'special': gen.choice(['coord', 'x', 'none']),
+            'coord': gen.choice(list(range(24))),
+            'lin': [{'v': gen.choice([2.0, -0.5, 3.0, 1.5]), 'np': None},
+                    {'v': gen.choice([0.25, -2.5, 1.5, -1.25]), 'np': None}]}
 
 
 @st.composite
 def _strategy(draw, tier):
     types = draw(ex.base_types(pspaces=True))
-    what = draw(st.sampled_from(['zoo', 'zoo', 'tree', 'tree', 'tree']))
-    cons = None
+    gen = HypGen(draw, types)
+    what = draw(st.sampled_from(['zoo', 'tree', 'tree', 'tree', 'tree']))
     if what == 'zoo':
-        tree, cons = draw(_zoo(types))
-        # sometimes wrap the zoo entry in one arithmetic node so that the
-        # rule of the expression class meets this leaf's derivative
-    else:
-        pairs = ex.inhabited_pairs(types, 'c06')
-        roots = [r for r in ROOTS if r in pairs]
-        dom, ran = draw(st.sampled_from(roots))
-        depth = draw(st.sampled_from([1, 2, 2, 3, 3]))
-        tree = draw(ex.trees(types, dom, ran, depth, 'c06', pairs))
-    dom = tree['dom']
-    desc = {'types': types, 'tree': tree, 'what': what,
-            'x': draw(_point_strategy(types, dom, cons)),
-            'dirs': [draw(ex.values(types, dom, -1.0, 1.0))
-                     for _ in range(draw(st.sampled_from([1, 2])))],
-            'special': draw(st.sampled_from(['coord', 'x', 'none'])),
-            'coord': draw(st.sampled_from(list(range(24)))),
-            'lin': [draw(ex.scalars(False, classes=['generic'])),
-                    draw(ex.scalars(False, classes=['generic']))]}
-    return desc
+        opts = zoo_options(types)
+        names = sorted({o[0] for o in opts})
+        name = draw(st.sampled_from(names))
+        _, node, cons = draw(st.sampled_from([o for o in opts
+                                              if o[0] == name]))
+        tree = materialise(node, gen)
+        types = _zoo_types(types, tree)
+        gen.types = types
+        return _case(gen, types, tree, 'zoo', cons)
+    pairs = ex.inhabited_pairs(types, 'c06')
+    roots = [r for r in ROOTS if r in pairs]
+    dom, ran = draw(st.sampled_from(roots))
+    depth = draw(st.sampled_from([1, 2, 2, 3, 3]))
+    tree = draw(ex.trees(types, dom, ran, depth, 'c06', pairs))
+    return _case(gen, types, tree, 'tree', None)
 
 
 def strategy(tier):
     return _strategy(tier)
+
+
+def _templates():
+    """Space templates of the exhaustive zoo enumeration."""
+    def tensor(shape, dtype, w=None):
+        return {'kind': 'tensor', 'shape': shape, 'dtype': dtype,
+                'exponent': 2.0, 'weighting': w, 'fkey': 'F'}
+
+    def discr(shape, dtype, cell=0.5, nob=False, w=None):
+        return {'kind': 'discr', 'min': [0.0] * len(shape),
+                'max': [cell * (m - 1 if nob else m) for m in shape],
+                'shape': shape, 'dtype': dtype, 'exponent': 2.0,
+                'nodes_on_bdry': nob, 'weighting': w, 'fkey': 'F'}
+    cw = {'type': 'const', 'value': 2.0}
+    aw = {'type': 'array', 'data': [1.0, 2.0, 0.5]}
+    specs = [
+        ('r64', tensor([4], 'float64'), 2, None),
+        ('r64-constw', tensor([3], 'float64', cw), 3,
+         {'type': 'array', 'data': [1.5, 0.5, 2.0]}),
+        ('r64-arrayw', tensor([3], 'float64', aw), 2,
+         {'type': 'const', 'value': 0.5}),
+        ('c128', tensor([3], 'complex128'), 2, None),
+        ('c128-constw', tensor([2], 'complex128', cw), 2, None),
+        ('r32', tensor([3], 'float32'), 2, None),
+        ('c64', tensor([2], 'complex64'), 2, None),
+        ('discr-r64', discr([4], 'float64'), 2, None),
+        ('discr2d-r64', discr([3, 3], 'float64', 0.25, True), 2,
+         {'type': 'array', 'data': [1.5, 0.5]}),
+        ('discr-c128', discr([3], 'complex128', 1.0), 2, None),
+        ('discr-r32', discr([4], 'float32', 2.0), 3, None),
+    ]
+    out = []
+    for name, X, n, w in specs:
+        dtype = X['dtype']
+        types = {'X': X,
+                 'Y': tensor([2], dtype, cw if 'constw' in name else None),
+                 'F': {'kind': 'field_of', 'of': 'X', 'fkey': 'F'}}
+        if dtype.startswith('complex'):
+            types['Xr'] = {'kind': 'real_of', 'of': 'X', 'fkey': 'R'}
+            types['R'] = {'kind': 'reals', 'fkey': 'R'}
+        types['XX'] = {'kind': 'power', 'of': 'X', 'n': n, 'weighting': w,
+                       'exponent': 2.0, 'fkey': 'F', 'default': w is None}
+        types['P'] = {'kind': 'prod', 'of': ['X', 'Y'], 'weighting': None,
+                      'fkey': 'F', 'default': True}
+        types['Pw'] = {'kind': 'prod', 'of': ['X', 'Y'], 'fkey': 'F',
+                       'weighting': {'type': 'array', 'data': [2.0, 0.5]},
+                       'default': False}
+        if X['kind'] == 'discr' and min(X['shape']) >= 3:
+            types['G'] = {'kind': 'power', 'of': 'X', 'n': len(X['shape']),
+                          'weighting': None, 'exponent': 2.0, 'fkey': 'F',
+                          'default': True, 'grad_of': 'X'}
+        out.append((name, types))
+    return out
 
 
 def enumerate_cases(tier):
@@ -385,7 +533,27 @@ def enumerate_cases(tier):
         for space in ('real', 'cplx', 'int'):
             cases.append({'what': 'ufunc-enum', 'name': name, 'nin': nin,
                           'nout': nout, 'space': space})
+    # every zoo entry x option combination x space template, data from a
+    # fixed-seed RNG (explicit in the descriptor)
+    reps = 1 if tier == 'quick' else 4
+    for tname, types in _templates():
+        for k, (name, node, cons) in enumerate(zoo_options(types)):
+            for rep in range(reps):
+                rng = np.random.RandomState(
+                    (hash_int(tname) + 7919 * k + 104729 * rep) % (2 ** 31))
+                gen = RngGen(rng, types)
+                tree = materialise(node, gen)
+                t2 = _zoo_types(types, tree)
+                gen.types = t2
+                case = _case(gen, t2, tree, 'zoo', cons)
+                case['template'] = tname
+                cases.append(case)
     return cases
+
+
+def hash_int(text):
+    import hashlib
+    return int(hashlib.sha1(text.encode()).hexdigest()[:8], 16)
 
 
 # --------------------------------------------------------------------------
@@ -414,8 +582,15 @@ def _site(b):
 
 def _region(env, node):
     di, ri = env.info(node['dom']), env.info(node['ran'])
-    return '{}->{}|{}'.format(di.cat, ri.cat,
-                              'cplx' if (di.cplx or ri.cplx) else 'real')
+    suffix = ''
+    if node['op'] in ('rscal', 'div'):
+        sv = ex.scalar_value(node['s'])
+        if isinstance(sv, complex) and sv.imag != 0 and \
+                ex.nonholomorphic(env.types, node['a']):
+            suffix = ':cscal-nonholo'
+    return '{}->{}|{}{}'.format(di.cat, ri.cat,
+                                'cplx' if (di.cplx or ri.cplx) else 'real',
+                                suffix)
 
 
 def _eval(env, b, xval):
@@ -465,7 +640,7 @@ def fd_errors(env, b, D, x, d, eps):
 
 def judge(errs, hs, S, eps):
     """None if the ladder accepts D(d), else a text."""
-    tol = 2048.0 * eps ** (2.0 / 3.0) * S
+    tol = 256.0 * eps ** (2.0 / 3.0) * S
     k = int(np.argmin(errs))
     emin = errs[k]
     if not emin <= tol:
